@@ -552,6 +552,49 @@ def feed_wrapper(ctx, chk, special, prop='C03'):
         chk.instance('R-FSM', 'Parser::feed', 'exists', False, what='Parser::feed not found', undischarged=True)
         return
     n = 0
+    # which field of Parser is the "taking plain text" state, and which of its two values means "plain"?
+    # Found by behaviour, not by name: the field (a bool or a two-variant enum without data) for which
+    # one value makes feed("a") draw the character and the other makes it send it
+    from .values import EnumV
+
+    def two_valued(ty):
+        if ty == 'bool':
+            return [BoolV(True), BoolV(False)]
+        a_ = prog.adts.get(ty)
+        if a_ and a_.get('kind') == 'enum' and len(a_['variants']) == 2 and all(not v_['fields'] for v_ in a_['variants']):
+            return [EnumV(ty, {0}, {}), EnumV(ty, {1}, {})]
+        return None
+
+    def probe(field, val, ch):
+        eng = Engine(prog, ctx.eff, config=dict(max_steps=100000, check_inv=False))
+        eng.contract = lambda callee, caller: callee.startswith(fsm.LP) or callee.startswith('parser_listener::ParserListener::')
+        st = State()
+        inv.screen_init(eng, st)
+        root = ('H', 'parser')
+        st.htypes[root] = body.locals[1]['ty'].replace('&mut ', '')
+        st.store[root] = StructV('parser::Parser', {field: val})
+        sent = []
+        eng.hooks = [lambda kind, st_, fr, bi, *a: sent.append(1) if kind == 'send' else None]
+        try:
+            res = eng.exec_body(st, f, [RefV((root, ()), True), StrV(ch)])
+        except Exception:
+            return None
+        drew = any(ev[0] == 'listener' for (s_, r_) in res for ev in s_.event_list())
+        return 'draw' if drew and not sent else ('send' if sent and not drew else None)
+    padt = prog.adts.get('parser::Parser') or {}
+    flag_field = None
+    for fd in (padt.get('variants') or [{}])[0].get('fields', []):
+        vals = two_valued(fd.get('ty', ''))
+        if not vals:
+            continue
+        got = [probe(fd['name'], v_, 'a') for v_ in vals]
+        if sorted(x or '' for x in got) == ['draw', 'send']:
+            flag_field = (fd['name'], vals[got.index('draw')], vals[got.index('send')])
+            break
+    if flag_field is None:
+        chk.instance('R-FSM', 'Parser::feed', 'plain-text state found', False, undischarged=True,
+                     what='no two-valued field of Parser decides between drawing a plain character and sending it to the recogniser')
+        return
     for c in sorted(set(CLASS_REPS)):
         for flag in (True, False):
             eng = Engine(prog, ctx.eff, config=dict(max_steps=100000, check_inv=False))
@@ -560,7 +603,7 @@ def feed_wrapper(ctx, chk, special, prop='C03'):
             inv.screen_init(eng, st)
             root = ('H', 'parser')
             st.htypes[root] = body.locals[1]['ty'].replace('&mut ', '')
-            st.store[root] = StructV('parser::Parser', {'taking_plain_text': BoolV(flag)})
+            st.store[root] = StructV('parser::Parser', {flag_field[0]: flag_field[1] if flag else flag_field[2]})
             sends = []
 
             def hook(kind, st_, fr, bi, *a):
